@@ -73,6 +73,37 @@ def observe(sim, ld, weighted):
     return st
 
 
+_PERSIST = [0]
+
+
+class AlwaysReject:
+    """stand-in that offers the same candidate and a failing accept draw round after round"""
+    def __init__(self, key, u, rounds):
+        self.key, self.u, self.calls, self.rounds = key, u, 0, rounds
+    def choice(self, seq):
+        self.calls += 1
+        if self.calls > self.rounds:
+            raise StopIteration('still rejecting')
+        return self.key
+    def random(self):
+        return self.u
+
+
+def probe_persistent(sim, ld, key, u, rounds=3000):
+    """the rejection loop has no other exit than an accepted candidate: a candidate whose accept test fails every time is never returned"""
+    old = sim.random
+    sim.random = AlwaysReject(key, float(u), rounds)
+    try:
+        r = ld.choose_random()
+        return 'A %r after %d rejected rounds' % (r, sim.random.calls)
+    except StopIteration:
+        return 'R'
+    except Exception as e:
+        return 'X ' + type(e).__name__
+    finally:
+        sim.random = old
+
+
 def probe(sim, ld, key, u):
     old = sim.random
     sim.random = OneShot(key, float(u))
@@ -181,6 +212,14 @@ def run_case(sim, weighted, ops, conv):
                 us = [F(1, 2)]
             for u in us:
                 probes.append((k, u)); pres.append(probe(sim, ld, k, u))
+        _PERSIST[0] += 1
+        if weighted and bad is None and thr and _PERSIST[0] % 12 == 0:
+            # a persistent-rejection probe on every 12th history: the lightest candidate with a draw just above its threshold, thousands of rounds
+            k0 = min(thr, key=lambda k: (thr[k], k))
+            if thr[k0] < 1:
+                rr = probe_persistent(sim, ld, k0, min(F(1) - F(1, 2 ** 40), thr[k0] + e30))
+                if rr != 'R':
+                    bad = 'choose_random returned a candidate although its accept test (u >= weight/max_weight = %s) failed in every round: %s' % (thr[k0], rr)
         if weighted and bad is None and sum(spec.values()) > 0:
             # selection law from the observed thresholds: P(k) = thr_k / sum thr, needs thr_k <= 1
             tot_thr = sum(thr.values()); W = sum(spec.values())
